@@ -445,6 +445,15 @@ def rcnt : P String := do
   let v := v.failIf (!bad.isEmpty) s!"rPOMCP node_count_ne_sum {bad.length} of {l.length} nodes, e.g. N={(bad.headD (0,0)).1} sum over actions={(bad.headD (0,0)).2}"
   return v.render
 
+/-- `trm kind calls fromTerminal`: calls of the generative model made on a terminal state that the previous call
+    of the same simulation had just returned -/
+def trm : P String := do
+  let kind ← P.nat; let n ← P.nat; let ft ← P.nat; P.eof
+  let cn := if kind == 2 then "POMCP" else if kind == 3 then "rPOMCP" else "MCTS"
+  let v : Verdict := { tag := if n == 0 then "trivial" else "trm" }
+  let v := v.failIf (ft != 0) s!"{cn} simulates_past_terminal_state {ft} of {n} calls were made on a terminal state reached in the same simulation"
+  return v.render
+
 def handle (toks : List String) : String :=
   let r := match toks with
     | "run" :: rest => P.run run rest
@@ -453,6 +462,7 @@ def handle (toks : List String) : String :=
     | "rng" :: rest => P.run rng rest
     | "rrun" :: rest => P.run rrun rest
     | "rcnt" :: rest => P.run rcnt rest
+    | "trm" :: rest => P.run trm rest
     | _ => none
   r.getD "bad-op"
 
